@@ -5,8 +5,8 @@ from pathlib import Path
 V = Path(__file__).resolve().parent.parent
 sys.path.insert(0, str(V))
 from tools.try_seed import run as try_run
-BLIND_OWN = {"C03/b","C05/a","C05/b","C10/b","C14/a","C15/b","C16/a","C16/b","C17/a","C17/b","C18/a","C18/b","C19/a","C01/a","C01/b","C02/a","C02/b","C20/a"}
-BLIND_OTHER = {"C04/a":"C03.R1","C04/b":"C19.R4","C09/a":"C01.R4","C07/b":"C15.R1","C11/a":"C03.R2","C11/b":"C10.R5"}
+BLIND_OWN = {"C03/b","C05/a","C05/b","C10/b","C14/a","C15/b","C16/a","C16/b","C17/a","C17/b","C18/a","C18/b","C19/a","C01/a","C01/b","C02/a","C02/b","C20/a","C06/b"}
+BLIND_OTHER = {"C04/a":"C03.R1","C04/b":"C19.R4","C09/a":"C01.R4","C07/b":"C15.R1","C11/a":"C03.R2","C11/b":"C10.R5","C06/a":"C07.R5"}
 only = set(sys.argv[1:])
 for res in sorted(Path("/tmp/vw2").glob("*.result")):
     line = res.read_text().strip()
